@@ -16,7 +16,7 @@ PROP = dict(
     rule="window: (quantum, start, length) triples, start aligned to the finest unit (H: hourly 2019-11..2021-03, quick tier +-36h around each of the 15 month "
          "boundaries; D: daily; M: 2018-2022; Y: 2014-2025), length 0..40h/70d/30mo/4y; edges: (quantum, start, end) with both endpoints within 2 finest units of a month/year boundary or 28 Feb, "
          "years 2019-2021 (thorough 2015-2025), span <= 3 years (100 days / 4 days when the coarsest unit is D / H); long: rapid (quantum, start, end) with years 2015-2025 (2018-2022 / 2019-2021 when the coarsest unit is D / H) biased to month ends/leap days; "
-         "tov: (hour, unit) pairs; minmax: (quantum, shuffled view list); api: (quantum, noStandardView, timestamped bit list incl. stamps on boundary days, query ranges incl. ranges that end at the unit of a stored bit and start at a coarser-unit boundary 0-2 units earlier). distinct = hash of that input. "
+         "tov: (hour, unit) pairs; minmax: (quantum, shuffled view list); api: (quantum, noStandardView, timestamped bit list incl. stamps on boundary days and the same (row, column) bit set again at other timestamps / first without a timestamp, query ranges incl. ranges that end at the unit of a stored bit and start at a coarser-unit boundary 0-2 units earlier). distinct = hash of that input. "
          "non-trivial = the range crosses a month end, year end or Feb 29 or needs >= 3 view granularities; tov: hour >= 12 or a month-end/Feb/Dec date; "
          "minmax: >= 4 views incl. 'standard'; api: bits in >= 2 views and a query range cutting through the stored timestamps.",
     assumptions=["view names are decoded by the harness's own digit parser (not time.Parse layouts)",
